@@ -159,6 +159,169 @@ def q_cases_for(case, out, cid0):
     return lits
 
 
+# ----------------------------------------------------------------------------- loop skeletons read off the source (ast)
+# The description (init normalised?, callback break normalised?, convergence break normalised?, normalisation before the tests?,
+# normalisation at the end of the sweep?, first iteration of the convergence test) of each driver is extracted from the CURRENT source and
+# handed to Coq, which evaluates the hypothesis desc_ok of the theorem C08_gen_run_normalised on it.  An unexpected source shape
+# yields None (skipped and counted, never a verdict).
+import ast, os
+
+NORM_FUNS = ("cp_normalize", "tucker_normalize")
+STATE_NAMES = ("factors", "nn_factors", "nn_core")
+
+
+def _is_norm_stmt(node):
+    """`if normalize_factors: ... = cp_normalize(...)` (the plain flag, not a compound in-sweep condition)"""
+    if not isinstance(node, ast.If) or node.orelse:
+        return False
+    t = node.test
+    plain = (isinstance(t, ast.Name) and t.id == "normalize_factors") or \
+            (isinstance(t, ast.Compare) and isinstance(t.left, ast.Name) and t.left.id == "normalize_factors" and len(t.ops) == 1 and isinstance(t.ops[0], ast.Is))
+    if not plain:
+        return False
+    calls = [n for s in node.body for n in ast.walk(s) if isinstance(n, ast.Call)]
+    return any(getattr(c.func, "id", getattr(c.func, "attr", "")) in NORM_FUNS for c in calls)
+
+
+def _walk_skip_norm(node):
+    """ast.walk that does not descend into normalisation statements"""
+    todo = [node]
+    while todo:
+        n = todo.pop()
+        if n is not node and _is_norm_stmt(n):
+            continue
+        yield n
+        todo.extend(ast.iter_child_nodes(n))
+
+
+def _assigns_state(node):
+    if _is_norm_stmt(node):
+        return False
+    for n in _walk_skip_norm(node):
+        if isinstance(n, (ast.Assign, ast.AugAssign)):
+            targets = n.targets if isinstance(n, ast.Assign) else [n.target]
+            for t in targets:
+                for x in ast.walk(t):
+                    if isinstance(x, ast.Name) and x.id in STATE_NAMES:
+                        return True
+    return False
+
+
+def _names(node):
+    return {x.id for x in ast.walk(node) if isinstance(x, ast.Name)} | {x.attr for x in ast.walk(node) if isinstance(x, ast.Attribute)}
+
+
+def _breaks(stmt, tests=(), norm=False):
+    """yield (enclosing tests, normalised-just-before?) for every break below stmt (inner for-loops excluded)"""
+    if isinstance(stmt, ast.Break):
+        yield tests, norm
+    elif isinstance(stmt, ast.If):
+        for branch, tt in ((stmt.body, tests + (stmt.test,)), (stmt.orelse, tests + (stmt.test,))):
+            nrm = norm
+            for s in branch:
+                if _is_norm_stmt(s):
+                    nrm = True
+                elif _assigns_state(s):
+                    nrm = False
+                yield from _breaks(s, tt, nrm)
+
+
+def _first_iteration(tests):
+    for t in tests:
+        for c in ast.walk(t):
+            if isinstance(c, ast.Compare) and isinstance(c.left, ast.Name) and c.left.id == "iteration" and len(c.ops) == 1 and isinstance(c.comparators[0], ast.Constant):
+                v = c.comparators[0].value
+                if isinstance(c.ops[0], ast.GtE):
+                    return int(v)
+                if isinstance(c.ops[0], ast.Gt):
+                    return int(v) + 1
+    return None
+
+
+def init_cp_normalises(tree):
+    """initialize_cp: every `return` is immediately preceded (in its block) by the normalisation statement"""
+    fn = next((n for n in tree.body if isinstance(n, ast.FunctionDef) and n.name == "initialize_cp"), None)
+    if fn is None:
+        return None
+    ok, seen = True, 0
+    for node in ast.walk(fn):
+        body_lists = [getattr(node, a) for a in ("body", "orelse", "finalbody") if isinstance(getattr(node, a, None), list)]
+        for blk in body_lists:
+            for k, s in enumerate(blk):
+                if isinstance(s, ast.Return):
+                    seen += 1
+                    prev = [x for x in blk[:k] if not isinstance(x, ast.Expr)]
+                    ok = ok and bool(prev) and _is_norm_stmt(prev[-1])
+    return ok if seen else None
+
+
+def extract_desc(path, func, init_cp_ok=None):
+    """(init_norm, cb_norm, conv_norm, pre_test_norm, end_norm, conv_first) of one driver, or None when the source has an unexpected shape"""
+    tree = ast.parse(open(path).read())
+    fn = next((n for n in tree.body if isinstance(n, ast.FunctionDef) and n.name == func), None)
+    if fn is None:
+        return None
+    k_loop = next((k for k, s in enumerate(fn.body) if isinstance(s, ast.For) and isinstance(s.iter, ast.Call) and getattr(s.iter.func, "id", "") == "range"
+                   and any(isinstance(a, ast.Name) and a.id == "n_iter_max" for a in s.iter.args)), None)
+    if k_loop is None:
+        return None
+    loop = fn.body[k_loop]
+    # initialisation
+    init_norm = False
+    for s in fn.body[:k_loop]:
+        if _is_norm_stmt(s):
+            init_norm = True
+        for c in ast.walk(s):
+            if isinstance(c, ast.Call) and getattr(c.func, "id", "") == "initialize_cp":
+                kw = {k.arg: k.value for k in c.keywords}
+                passes = isinstance(kw.get("normalize_factors"), ast.Name) and kw["normalize_factors"].id == "normalize_factors"
+                if passes and init_cp_ok:
+                    init_norm = True
+    body = loop.body
+    sweep_end = max([k for k, s in enumerate(body) if not _is_norm_stmt(s) and _assigns_state(s)], default=None)
+    if sweep_end is None:
+        return None
+    norm_now, pre, seen_break = False, False, False
+    cb_norm, conv_norm, conv_first = True, True, None
+    n_conv = 0
+    for s in body[sweep_end + 1:]:
+        if _is_norm_stmt(s):
+            norm_now = True
+            if not seen_break:
+                pre = True
+            continue
+        for tests, nrm in _breaks(s, (), norm_now):
+            seen_break = True
+            names = set().union(*[_names(t) for t in tests]) if tests else set()
+            if "retVal" in names or "callback" in names:
+                cb_norm = cb_norm and nrm
+            else:
+                n_conv += 1
+                conv_norm = conv_norm and nrm
+                fi = _first_iteration(tests)
+                conv_first = fi if fi is not None else conv_first
+    if n_conv == 0 or conv_first is None:
+        return None
+    return (init_norm, cb_norm, conv_norm, pre, norm_now, conv_first)
+
+
+DRIVER_SOURCES = [("parafac", "tensorly/decomposition/_cp.py"), ("non_negative_parafac", "tensorly/decomposition/_nn_cp.py"),
+                  ("non_negative_parafac_hals", "tensorly/decomposition/_nn_cp.py"), ("non_negative_tucker", "tensorly/decomposition/_tucker.py"),
+                  ("non_negative_tucker_hals", "tensorly/decomposition/_tucker.py"), ("parafac2", "tensorly/decomposition/_parafac2.py")]
+
+
+def extract_all(repo):
+    cp_ok = init_cp_normalises(ast.parse(open(os.path.join(repo, "tensorly/decomposition/_cp.py")).read()))
+    return {fn: extract_desc(os.path.join(repo, path), fn, cp_ok) for fn, path in DRIVER_SOURCES}, cp_ok
+
+
+
+
+def desc_lit(cid, fn, d):
+    b = C.boolc
+    return (f"({cid}%N, (DDesc (mkDesc {b(d[0])} {b(d[1])} {b(d[2])} {b(d[3])} {b(d[4])} {C.nat(d[5])})), {QOK})")
+
+
 # ----------------------------------------------------------------------------- observing the implementation
 def shp(a):
     return tuple(int(x) for x in np.shape(a))
@@ -1016,7 +1179,8 @@ def cp_normalize_cases(tier, rng):
         shape = tuple(rng.choice([1, 2, 3, 5]) for _ in range(order))
         R = rng.choice([1, 2, 3])
         yield dict(shape=shape, rank=R, seed=rng.randrange(10 ** 6), weights=rng.choice(["none", "ones", "generic", "signed"]),
-                   zero_col=rng.choice([None, None, (rng.randrange(order), rng.randrange(R))]), integer=rng.random() < 0.3)
+                   zero_col=rng.choice([None, None, (rng.randrange(order), rng.randrange(R))]), integer=rng.random() < 0.3,
+                   tiny_col=rng.choice([None, None, (rng.randrange(order), rng.randrange(R))]))
 
 
 def cp_normalize_inputs(cc):
@@ -1025,6 +1189,9 @@ def cp_normalize_inputs(cc):
     if cc["zero_col"] is not None:
         k, c = cc["zero_col"]
         fs[k][:, c] = 0.0
+    if cc.get("tiny_col") is not None:                  # a column of norm ~1e-6: small, not zero -- must be normalised like any other
+        k, c = cc["tiny_col"]
+        fs[k][:, c] = (r.random_sample(fs[k].shape[0]) + 0.5) * 1e-6
     w = {"none": None, "ones": np.ones(cc["rank"]), "generic": r.random_sample(cc["rank"]) + 0.5,
          "signed": r.standard_normal(cc["rank"]) * (r.random_sample(cc["rank"]) < 0.8)}[cc["weights"]]
     return w, fs
@@ -1068,6 +1235,9 @@ def run_tucker_normalize_case(cc):
     if cc["zero_col"] is not None:
         k, c = cc["zero_col"]
         fs[k][:, min(c, ranks[k] - 1)] = 0.0
+    if cc.get("tiny_col") is not None:
+        k, c = cc["tiny_col"]
+        fs[k][:, min(c, ranks[k] - 1)] = (r.random_sample(fs[k].shape[0]) + 0.5) * 1e-6
     core = r.standard_normal(ranks)
     before = tucker_to_tensor((core, fs))
     st, out = C.call_impl(tucker_normalize, (core.copy(), [f.copy() for f in fs]), timeout=60)
@@ -1206,17 +1376,7 @@ def _all_fixed(i):
 # no known finding at present: the classes "user initialisation and no sweep", "callback stop" of the CP drivers (repaired by
 # 3de556b) and "convergence exit" / "cap 0" of non_negative_tucker(_hals) / parafac2 (repaired by 1c1a684) are kept as corpus
 # inputs (corpus/C08/normalisation_exits.json)
-def clf_tucker_fixed_misaligned(f):
-    """tucker(fixed_factors=...) with a rank list whose entries at the positions partial_tucker reads differ from the entries of the updated modes"""
-    i = f["inputs"]
-    if not (i.get("tucker_case") and i.get("entry") == "tucker" and i.get("fixed")):
-        return False
-    s_, rank, fixed = list(i["shape"]), list(i["rank"]), list(i["fixed"])
-    nonfixed = [m for m in range(len(s_)) if m not in fixed]
-    return any(min(rank[j], s_[m]) != min(rank[m], s_[m]) for j, m in enumerate(nonfixed))
-
-
-CLASSIFIERS = {"tucker_fixed_factors_rank_misaligned": clf_tucker_fixed_misaligned}
+CLASSIFIERS = {}
 
 
 def _install_known_loader():
@@ -1335,7 +1495,7 @@ def _run(chk, rng):
             chk.finding(f"tensorly.decomposition.{nc['fn']}", inputs, msg, pred,
                         observed=None if res["st"] != "ok" else {"weights": out.weights, "column_norms": [np.linalg.norm(f, axis=0) for f in out.factors]})
     # ---- Tucker / partial_tucker on every stopping path, with fixed factors, mask, the three SVD methods
-    for tc in tucker_cases(tier, rng):
+    for tc in corpus_norm_cases("tucker_cases") + list(tucker_cases(tier, rng)):
         st, out, X, fixed_in = run_tucker_case(tc)
         if st != "ok" and (str(out) == "timeout" or str(out).startswith("LinAlgError")):
             timeouts += str(out) == "timeout"; skipped += str(out) != "timeout"
@@ -1390,6 +1550,18 @@ def _run(chk, rng):
             inputs = {k_: (list(v) if isinstance(v, tuple) else v) for k_, v in nc.items()}
             inputs["exit"] = exit_kind
             chk.finding(f"tensorly.decomposition.{nc['fn']}" if nc["fn"] != "cmtf" else ENTRY["DCmtf"], inputs, msg, pred)
+    # ---- loop skeletons extracted from the source of the six drivers
+    descs, cp_ok = extract_all(C.REPO)
+    chk.cov["skeletons_from_source"] = {k: (list(v) if v else None) for k, v in descs.items()}
+    for fn_, d_ in descs.items():
+        if d_ is None:
+            skipped += 1
+            chk.notes.append(f"loop skeleton of {fn_} not recognised in the source (skipped)")
+            continue
+        cid = len(cases)
+        cases.append(desc_lit(cid, fn_, d_))
+        meta.append(dict(kind="Desc", shape=(), spec=fn_, kw=dict(fn=fn_, desc=str(d_))))
+        chk.count(key=("skeleton", fn_, d_))
     # ---- cp_normalize itself
     for cc in cp_normalize_cases(tier, rng):
         st, out, before = run_cp_normalize_case(cc)
@@ -1430,6 +1602,7 @@ def _run(chk, rng):
         m = meta[i]
         what = ("corr:C08 (Model/Structure.v cp_run vs control flow of the CP drivers)" if m["kind"] == "DNorm" else
                 "corr:C08 (Model/Structure.v partial_tucker / tucker_fixed vs the implementation's shapes)" if m["kind"] == "DTuckerX" else
+                "corr:C08 (loop skeleton read off the source does not satisfy desc_ok: some exit returns un-normalised factors)" if m["kind"] == "Desc" else
                 "corr:C08 (Model/StructureQ.v: orthonormality / core = projection / cp_normalize evaluated exactly on the outputs)" if m["kind"] == "Q" else
                 "corr:C08 (Model/Structure.v vs rank validators / decomposition shape flow)")
         chk.disagreement(what, {"entry": ENTRY.get(m["kind"], "tensorly.decomposition." + str(m["kw"].get("fn") or m["kw"].get("entry"))), "shape": list(m["shape"]), "rank": str(m["spec"]),
@@ -1472,6 +1645,8 @@ def corpus_norm_cases(which="norm_cases"):
             nc["shape"] = tuple(tuple(x) if isinstance(x, list) else x for x in nc["shape"])
             if isinstance(nc["rank"], list):
                 nc["rank"] = tuple(nc["rank"])
+            if which == "tucker_cases":
+                nc["rank"] = list(nc["rank"])
             if which == "norm_cases":
                 nc.setdefault("cb_stop", None); nc.setdefault("fixed", None); nc.setdefault("callback", False)
             out.append(nc)
@@ -1489,6 +1664,7 @@ def replay(payload):
         r = pred_tucker_case(tc, *run_tucker_case(tc))
     elif "zero_col" in inp and "weights" in inp:
         cc = dict(inp); cc["shape"] = tuple(cc["shape"]); cc["zero_col"] = tuple(cc["zero_col"]) if cc["zero_col"] is not None else None
+        cc["tiny_col"] = tuple(cc["tiny_col"]) if cc.get("tiny_col") is not None else None
         if cc.pop("tucker", False):
             r = pred_tucker_normalize(cc, *run_tucker_normalize_case(cc))
         else:
